@@ -170,6 +170,11 @@ func engineNotebook(ctx *Ctx) {
 			for i := r.Intn(4); i > 0; i-- {
 				kws = append(kws, c08Simple(r))
 			}
+			kwMarker := ""
+			if r.Intn(2) == 0 { // a unique keyword: the saved command must also be found through its keywords
+				kwMarker = "kw" + marker
+				kws = append(kws, kwMarker)
+			}
 			for i := r.Intn(3); i > 0; i-- {
 				e.Platforms = append(e.Platforms, []string{"linux", "macos", "windows", "cross-platform", "my os", "null", "123"}[r.Intn(7)])
 			}
@@ -314,8 +319,13 @@ func engineNotebook(ctx *Ctx) {
 				})
 			}
 			// searchable by the next search (process level): the unique marker word of the description
-			if !e.AutoDesc && s%2 == 0 {
-				sres := h.Wtf(ctx.Wtf, nil, "--database", mainP, "--all-platforms", "--limit", "100", "--format", "json", "--no-color", "--", marker)
+			if (!e.AutoDesc || kwMarker != "") && s%2 == 0 {
+				word := marker
+				if e.AutoDesc || (kwMarker != "" && r.Intn(2) == 0) {
+					word = kwMarker
+					ctx.R.Path("search-after-save-by-keyword", 1)
+				}
+				sres := h.Wtf(ctx.Wtf, nil, "--database", mainP, "--all-platforms", "--limit", "100", "--format", "json", "--no-color", "--", word)
 				ctx.R.Path("search-after-save", 1)
 				if badS, why := sres.Crashed(); badS {
 					ctx.R.Violate(vlib.Violation{Property: "C08", Clause: "search-after-save-crashes", Path: "wtf search", Detail: why,
@@ -326,14 +336,14 @@ func engineNotebook(ctx *Ctx) {
 				found := false
 				if present && wf {
 					for _, it := range items {
-						if it.Command == c08JSONSafe(e.Command) && it.Description == c08JSONSafe(e.Description) {
+						if it.Command == c08JSONSafe(e.Command) && (e.AutoDesc || it.Description == c08JSONSafe(e.Description)) {
 							found = true
 						}
 					}
 				}
 				if !found {
 					ctx.R.Violate(vlib.Violation{Property: "C08", Clause: "saved-entry-not-found-by-search", Path: "wtf search",
-						Detail:  fmt.Sprintf("searching for the unique word %q of the saved description does not return the saved entry", marker),
+						Detail:  fmt.Sprintf("searching for the unique word %q of the saved entry (description or keyword) does not return it", word),
 						Witness: map[string]interface{}{"case": cs, "stdout": vlib.Trunc(sres.Stdout, 1500)}})
 				}
 			}
